@@ -1,5 +1,5 @@
 /-
-  C03 — one concrete step (XORKeyStream / SetCounter, bufSize = 64) refines the abstract step.
+  C03 — one concrete step (XORKeyStream / SetCounter, bufSize = 64·m for every m ≥ 1) refines the abstract step.
 -/
 import XC.Proofs.C03_Refine
 namespace XC.C03
@@ -21,45 +21,82 @@ theorem xorBytes_split (src A B : Bytes) (h : A.length ≤ src.length) :
   conv => lhs; rw [← List.take_append_drop A.length src]
   rw [xorBytes_append _ _ _ _ (by simp; omega)]
 
-/-- the "whole buffers" part of XORKeyStream -/
-theorem fullPart_spec (s2 : Cipher) (hpre : s2.precompDone = true → PrecompOK s2) (src1 : Bytes)
-    (hc : s2.counter.toNat + src1.length / 64 ≤ 2 ^ 32) :
-    ∃ s3, (if src1.length - src1.length % 64 > 0 then blocks s2 (src1.take (src1.length - src1.length % 64))
-           else .ok (s2, [])) =
-        .ok (s3, xorBytes (src1.take (64 * (src1.length / 64)))
-                  (ksRange s2.key s2.nonce (64 * s2.counter.toNat) (64 * (src1.length / 64)))) ∧
-      Same s2 s3 (s2.counter + UInt32.ofNat (src1.length / 64)) := by
-  have e : src1.length - src1.length % 64 = 64 * (src1.length / 64) := by omega
-  rw [e]
-  by_cases hq : 64 * (src1.length / 64) > 0
+theorem drop_append_add (A B : Bytes) (k : Nat) : (A ++ B).drop (A.length + k) = B.drop k := by
+  induction A with
+  | nil => simp
+  | cons a A ih =>
+    rw [List.cons_append, List.length_cons, Nat.add_right_comm, List.drop_succ_cons]
+    exact ih
+
+/-- the "whole buffers" part of XORKeyStream: `F = 64·q` bytes -/
+theorem fullPart_spec (s2 : Cipher) (hpre : s2.precompDone = true → PrecompOK s2) (src1 : Bytes) (F q : Nat)
+    (hF : F = 64 * q) (hle : F ≤ src1.length) (hc : s2.counter.toNat + q ≤ 2 ^ 32) :
+    ∃ s3, (if F > 0 then blocks s2 (src1.take F) else .ok (s2, [])) =
+        .ok (s3, xorBytes (src1.take (64 * q)) (ksRange s2.key s2.nonce (64 * s2.counter.toNat) (64 * q))) ∧
+      Same s2 s3 (s2.counter + UInt32.ofNat q) := by
+  subst hF
+  by_cases hq : 64 * q > 0
   · simp only [hq, if_true]
     exact blocks_spec s2 hpre _ _ (by simp; omega) hc
-  · have hq0 : src1.length / 64 = 0 := by omega
-    simp only [hq0]
+  · have hq0 : q = 0 := by omega
+    subst hq0
+    simp only [Nat.mul_zero, Nat.lt_irrefl, if_false]
     refine ⟨s2, ?_, ⟨rfl, rfl, by simp, rfl, rfl, rfl, hpre⟩⟩
     simp [xorBytes]
 
-/-- the padded last block of XORKeyStream -/
-theorem tailPart_spec (s3 : Cipher) (hpre : s3.precompDone = true → PrecompOK s3) (src2 : Bytes)
-    (ht : 0 < src2.length) (ht' : src2.length < 64) :
-    ∃ s4 bx, blocks s3 (src2 ++ zeros (64 - src2.length)) = .ok (s4, bx) ∧
-      Same s3 s4 (s3.counter + 1) ∧ bx.length = 64 ∧
+/-- the padded tail of XORKeyStream: `j` blocks over `src2 ‖ 0…0` -/
+theorem tailPart_spec (s3 : Cipher) (hpre : s3.precompDone = true → PrecompOK s3) (src2 : Bytes) (j : Nat)
+    (ht : src2.length ≤ 64 * j) (hc : s3.counter.toNat + j ≤ 2 ^ 32) :
+    ∃ s4 bx, blocksGeneric s3 (src2 ++ zeros (64 * j - src2.length)) = .ok (s4, bx) ∧
+      Same s3 s4 (s3.counter + UInt32.ofNat j) ∧ bx.length = 64 * j ∧
       bx.take src2.length = xorBytes src2 (ksRange s3.key s3.nonce (64 * s3.counter.toNat) src2.length) ∧
-      bx.drop src2.length = ksRange s3.key s3.nonce (64 * s3.counter.toNat + src2.length) (64 - src2.length) := by
-  have hl : (src2 ++ zeros (64 - src2.length)).length = 64 * 1 := by simp [zeros]; omega
-  obtain ⟨s4, hb, hs⟩ := blocks_spec s3 hpre _ 1 hl (by have := UInt32.toNat_lt s3.counter; omega)
-  refine ⟨s4, _, hb, by simpa using hs, ?_, ?_, ?_⟩
+      bx.drop src2.length =
+        ksRange s3.key s3.nonce (64 * s3.counter.toNat + src2.length) (64 * j - src2.length) := by
+  have hl : (src2 ++ zeros (64 * j - src2.length)).length = 64 * j := by simp [zeros]; omega
+  obtain ⟨s4, hb, hs⟩ := blocks_spec s3 hpre _ j hl hc
+  refine ⟨s4, _, hb, hs, ?_, ?_, ?_⟩
   · simp [xorBytes_length, ksRange_length, zeros]; omega
   · rw [xorBytes_take, ksRange_take]
     simp only [List.take_left']
-    rw [Nat.min_eq_left (by omega)]
+    rw [Nat.min_eq_left ht]
   · rw [xorBytes_drop, ksRange_drop, List.drop_left' rfl]
     rw [xorBytes_zeros_left _ _ (by simp [ksRange_length])]
 
-theorem xorRest_spec (s1 : Cipher) (hi : Inv s1) (hlen : s1.len = 0) (src1 : Bytes) (hr : src1.length ≠ 0) :
-    if 64 * tc s1 + src1.length > limit then xorRest 1 s1 src1 = .error .overflow
-    else ∃ s', xorRest 1 s1 src1 = .ok (s', xorBytes src1 (ksRange s1.key s1.nonce (64 * tc s1) src1.length)) ∧
-         Inv s' ∧ pos s' = 64 * tc s1 + src1.length ∧ s'.key = s1.key ∧ s'.nonce = s1.nonce := by
+/-- the state after the tail: `C` = block counter before the `j` tail blocks, `t` tail bytes used -/
+theorem tail_state_inv (m : Nat) (hm : 0 < m) (S : Cipher) (C j t : Nat)
+    (hcnt : S.counter.toNat = (C + j) % 2 ^ 32) (hov : S.overflow = true ↔ C + j = 2 ^ 32)
+    (hCj : C + j ≤ 2 ^ 32) (ht : t ≤ 64 * j) (hlen : S.len = 64 * j - t) (hlt : 64 * j - t < 64 * m)
+    (hbl : S.buf.length = 64 * m)
+    (hbd : S.buf.drop (64 * m - (64 * j - t)) = ksRange S.key S.nonce (64 * C + t) (64 * j - t))
+    (hpre : S.precompDone = true → PrecompOK S) (hovl : C + j = 2 ^ 32 → 64 * j - t < 64) :
+    Inv m S ∧ pos S = 64 * C + t := by
+  have htc : tc S = C + j := by
+    simp only [tc]
+    by_cases hw : C + j = 2 ^ 32
+    · simp [hov.mpr hw, hw]
+    · have : S.overflow = false := by
+        cases h : S.overflow
+        · rfl
+        · exact absurd (hov.mp h) hw
+      simp [this, hcnt]; omega
+  have hpos : pos S = 64 * C + t := by simp only [pos, htc, hlen]; omega
+  refine ⟨⟨hm, hbl, by omega, by rw [htc, hlen]; omega, ?_, ?_, hpre, ?_⟩, hpos⟩
+  · intro ho
+    have hw := hov.mp ho
+    apply UInt32.toNat_inj.mp
+    rw [hcnt, hw]
+    simp
+  · rw [hpos, hlen]; exact hbd
+  · intro ho
+    rw [hlen]
+    exact hovl (hov.mp ho)
+
+theorem xorRest_spec (m : Nat) (s1 : Cipher) (hi : Inv m s1) (hlen : s1.len = 0) (src1 : Bytes)
+    (hr : src1.length ≠ 0) :
+    if 64 * tc s1 + src1.length > limit then xorRest m s1 src1 = .error .overflow
+    else ∃ s', xorRest m s1 src1 = .ok (s', xorBytes src1 (ksRange s1.key s1.nonce (64 * tc s1) src1.length)) ∧
+         Inv m s' ∧ pos s' = 64 * tc s1 + src1.length ∧ s'.key = s1.key ∧ s'.nonce = s1.nonce := by
+  have hm := hi.mpos
   have hclt : s1.counter.toNat < 2 ^ 32 := UInt32.toNat_lt _
   by_cases hov : s1.overflow = true
   · have : 64 * tc s1 + src1.length > limit := by simp [tc, hov, limit]; omega
@@ -85,107 +122,143 @@ theorem xorRest_spec (s1 : Cipher) (hi : Inv s1) (hlen : s1.len = 0) (src1 : Byt
         · refine ⟨rfl, rfl, rfl, rfl, rfl, hi.pre, by simpa⟩
         · refine ⟨rfl, rfl, rfl, rfl, rfl, hi.pre, by simp [hov']; assumption⟩
       obtain ⟨s2, hs2e, h2k, h2n, h2c, h2b, h2l, h2p, h2o⟩ := hs2
-      have hcq : s2.counter.toNat + src1.length / 64 ≤ 2 ^ 32 := by rw [h2c]; omega
-      obtain ⟨s3, hf, hs3⟩ := fullPart_spec s2 h2p src1 hcq
-      have e : src1.length - src1.length % 64 = 64 * (src1.length / 64) := by omega
-      have h3c : s3.counter.toNat = (s1.counter.toNat + src1.length / 64) % 2 ^ 32 := by
+      -- full = 64·q, the tail has t < 64·m bytes
+      obtain ⟨q, hF, htlt, hqle⟩ : ∃ q, src1.length - src1.length % (64 * m) = 64 * q ∧
+          src1.length - 64 * q < 64 * m ∧ 64 * q ≤ src1.length := by
+        refine ⟨m * (src1.length / (64 * m)), ?_, ?_, ?_⟩
+        · have := Nat.mod_add_div src1.length (64 * m)
+          rw [← Nat.mul_assoc]; omega
+        · have h1 := Nat.mod_add_div src1.length (64 * m)
+          have h2 := Nat.mod_lt src1.length (show 64 * m > 0 by omega)
+          rw [← Nat.mul_assoc]; omega
+        · have := Nat.mod_add_div src1.length (64 * m)
+          rw [← Nat.mul_assoc]; omega
+      have hcq : s2.counter.toNat + q ≤ 2 ^ 32 := by rw [h2c]; omega
+      obtain ⟨s3, hf, hs3⟩ := fullPart_spec s2 h2p src1 (64 * q) q rfl (by omega) hcq
+      have h3c : s3.counter.toNat = (s1.counter.toNat + q) % 2 ^ 32 := by
         rw [hs3.counter, h2c, UInt32.toNat_add, UInt32.toNat_ofNat']; simp
-      have h3lt : ¬ (s3.counter.toNat + 1 > 2 ^ 32) := by have := UInt32.toNat_lt s3.counter; omega
-      have hsplit : src1 = src1.take (64 * (src1.length / 64)) ++ src1.drop (64 * (src1.length / 64)) :=
-        (List.take_append_drop _ _).symm
-      simp only [xorRest, hov', hnp, Bool.false_or, decide_false, Nat.mul_one, hs2e, hf, bind, Except.bind, h3lt,
+      have h3o : s3.overflow = true ↔ s1.counter.toNat + (src1.length + 63) / 64 = 2 ^ 32 := by
+        rw [hs3.overflow, h2o]
+      have htl : (src1.drop (64 * q)).length = src1.length - 64 * q := by simp
+      have hk : ksRange s1.key s1.nonce (64 * s1.counter.toNat) src1.length =
+          ksRange s1.key s1.nonce (64 * s1.counter.toNat) (64 * q) ++
+          ksRange s1.key s1.nonce (64 * s1.counter.toNat + 64 * q) (src1.length - 64 * q) := by
+        rw [← ksRange_add]; congr 1; omega
+      simp only [xorRest, hov', hnp, Bool.false_or, decide_false, hs2e, hF, hf, bind, Except.bind,
         if_false, Bool.false_eq_true]
-      by_cases ht : (src1.drop (src1.length - src1.length % 64)).length > 0
-      · -- a partial last block
-        simp only [ht, if_true]
-        have htl : (src1.drop (src1.length - src1.length % 64)).length = src1.length % 64 := by simp; omega
-        rw [e] at ht htl ⊢
-        have htpos : 0 < src1.length % 64 := by omega
-        obtain ⟨s4, bx, hb, hs4, hbl, hbt, hbd⟩ := tailPart_spec s3 hs3.pre (src1.drop (64 * (src1.length / 64)))
-          (by omega) (by omega)
-        rw [hb]
-        have hnowrap : s1.counter.toNat + src1.length / 64 < 2 ^ 32 := by omega
-        have h3c' : s3.counter.toNat = s1.counter.toNat + src1.length / 64 := by rw [h3c]; omega
-        have h4c : s4.counter.toNat = (s1.counter.toNat + src1.length / 64 + 1) % 2 ^ 32 := by
-          rw [hs4.counter, UInt32.toNat_add, h3c']; simp
-        have h4o : s4.overflow = true ↔ s1.counter.toNat + src1.length / 64 + 1 = 2 ^ 32 := by
-          rw [hs4.overflow, hs3.overflow, h2o]; omega
-        obtain ⟨S, hSe, hSk, hSn, hSc, hSo, hSb, hSl, hSp⟩ : ∃ S : Cipher,
-            S = { s4 with buf := bx, len := 64 - (src1.drop (64 * (src1.length / 64))).length } ∧
-            S.key = s4.key ∧ S.nonce = s4.nonce ∧ S.counter = s4.counter ∧ S.overflow = s4.overflow ∧
-            S.buf = bx ∧ S.len = 64 - src1.length % 64 ∧ (S.precompDone = true → PrecompOK S) :=
-          ⟨_, rfl, rfl, rfl, rfl, rfl, rfl, by simp only [htl], hs4.pre⟩
-        have htcS : tc S = s1.counter.toNat + src1.length / 64 + 1 := by
-          simp only [tc, hSo, hSc]
-          by_cases hw : s1.counter.toNat + src1.length / 64 + 1 = 2 ^ 32
-          · simp [h4o.mpr hw, hw]
-          · have : s4.overflow = false := by
-              cases h : s4.overflow
-              · rfl
-              · exact absurd (h4o.mp h) hw
-            simp [this, h4c]; omega
-        have hposS : pos S = 64 * s1.counter.toNat + src1.length := by
-          simp only [pos, htcS, hSl]; omega
-        refine ⟨S, ?_, ?_, hposS, ?_, ?_⟩
-        · -- output bytes
+      by_cases ht0 : src1.length - 64 * q = 0
+      · -- the input ends on a buffer boundary: nothing is padded, whichever branch is taken
+        have hq : 64 * q = src1.length := by omega
+        have hout : xorBytes (src1.take (64 * q)) (ksRange s2.key s2.nonce (64 * s2.counter.toNat) (64 * q)) =
+            xorBytes src1 (ksRange s1.key s1.nonce (64 * s1.counter.toNat) src1.length) := by
+          rw [hq, List.take_of_length_le (Nat.le_refl _), h2k, h2n, h2c]
+        have hnb : ((src1.drop (64 * q)).length + 63) / 64 = 0 := by rw [htl]; omega
+        by_cases hA : s3.counter.toNat + m ≥ 2 ^ 32
+        · simp only [hA, if_true, htl, ht0]
+          obtain ⟨s4, bx, hb, hs4, hbl, hbt, hbd⟩ := tailPart_spec s3 hs3.pre (src1.drop (64 * q)) 0
+            (by rw [htl]; omega) (by omega)
+          simp only [htl, ht0, Nat.mul_zero, Nat.sub_self] at hb hbl hbt hbd ⊢
+          rw [hb]
+          have hbx : bx = [] := List.eq_nil_of_length_eq_zero hbl
+          subst hbx
+          obtain ⟨S, hSe, hSk, hSn, hSc, hSo, hSb, hSl, hSp⟩ : ∃ S : Cipher,
+              S = { s4 with buf := zeros (64 * m) ++ [], len := 0 } ∧
+              S.key = s4.key ∧ S.nonce = s4.nonce ∧ S.counter = s4.counter ∧ S.overflow = s4.overflow ∧
+              S.buf = zeros (64 * m) ++ [] ∧ S.len = 0 ∧ (S.precompDone = true → PrecompOK S) :=
+            ⟨_, rfl, rfl, rfl, rfl, rfl, rfl, rfl, hs4.pre⟩
+          have h4c : S.counter.toNat = (s1.counter.toNat + q + 0) % 2 ^ 32 := by
+            rw [hSc, hs4.counter, UInt32.toNat_add, h3c]; simp
+          have := tail_state_inv m hm S (s1.counter.toNat + q) 0 0 h4c
+            (by rw [hSo, hs4.overflow, h3o]; omega) (by omega) (by omega) (by rw [hSl]) (by omega)
+            (by rw [hSb]; simp [zeros]) (by rw [hSb]; simp [zeros, ksRange]) hSp (by intro; omega)
+          refine ⟨S, ?_, this.1, by rw [this.2]; omega, by rw [hSk, hs4.key, hs3.key, h2k],
+            by rw [hSn, hs4.nonce, hs3.nonce, h2n]⟩
           rw [hSe]
-          simp only []
-          congr 2
-          have hk : ksRange s1.key s1.nonce (64 * s1.counter.toNat) src1.length =
-              ksRange s1.key s1.nonce (64 * s1.counter.toNat) (64 * (src1.length / 64)) ++
-              ksRange s1.key s1.nonce (64 * s1.counter.toNat + 64 * (src1.length / 64)) (src1.length % 64) := by
-            rw [← ksRange_add]; congr 1; omega
+          simp [hout]
+        · have hnt : ¬ ((src1.drop (64 * q)).length > 0) := by rw [htl]; omega
+          simp only [hA, hnt, if_false]
+          have h3l : s3.len = 0 := by rw [hs3.len, h2l, hlen]
+          have := tail_state_inv m hm s3 (s1.counter.toNat + q) 0 0 (by rw [h3c]; simp)
+            (by rw [h3o]; omega) (by omega) (by omega) (by rw [h3l]) (by omega)
+            (by rw [hs3.buf, h2b]; exact hi.buflen)
+            (by rw [hs3.buf, h2b]; simp [hi.buflen, ksRange]) hs3.pre (by intro; omega)
+          refine ⟨s3, by rw [hout], this.1, by rw [this.2]; omega, by rw [hs3.key, h2k], by rw [hs3.nonce, h2n]⟩
+      · -- a partial last buffer of t = len − 64·q bytes (0 < t < 64·m)
+        have hnowrap : s1.counter.toNat + q < 2 ^ 32 := by omega
+        have h3c' : s3.counter.toNat = s1.counter.toNat + q := by rw [h3c]; omega
+        have hout : ∀ bx : Bytes,
+            bx.take (src1.drop (64 * q)).length = xorBytes (src1.drop (64 * q))
+              (ksRange s3.key s3.nonce (64 * s3.counter.toNat) (src1.drop (64 * q)).length) →
+            xorBytes (src1.take (64 * q)) (ksRange s2.key s2.nonce (64 * s2.counter.toNat) (64 * q)) ++
+              bx.take (src1.drop (64 * q)).length =
+            xorBytes src1 (ksRange s1.key s1.nonce (64 * s1.counter.toNat) src1.length) := by
+          intro bx hbt
           rw [hk, xorBytes_split _ _ _ (by simp [ksRange_length]; omega), ksRange_length]
           rw [hbt, htl, hs3.key, hs3.nonce, h2k, h2n, h2c, h3c']
           congr 3
           omega
-        · -- invariant
-          refine ⟨by rw [hSb]; exact hbl, by rw [hSl]; omega, by rw [htcS, hSl]; omega, ?_, ?_, hSp⟩
-          · intro ho
-            rw [hSo] at ho
-            have hw := h4o.mp ho
-            apply UInt32.toNat_inj.mp
-            rw [hSc, h4c, hw]
-            simp
-          · rw [hposS, hSl, hSb, hSk, hSn]
-            rw [show 64 - (64 - src1.length % 64) = src1.length % 64 by omega]
-            rw [← htl, hbd, htl, hs4.key, hs4.nonce, h3c']
-            congr 1
-            omega
-        · rw [hSk, hs4.key, hs3.key, h2k]
-        · rw [hSn, hs4.nonce, hs3.nonce, h2n]
-      · -- the input ends on a block boundary
-        simp only [ht, if_false]
-        have ht0 : src1.length % 64 = 0 := by
-          have : (src1.drop (src1.length - src1.length % 64)).length = src1.length % 64 := by simp; omega
-          omega
-        have hq : 64 * (src1.length / 64) = src1.length := by omega
-        have h3o : s3.overflow = true ↔ s1.counter.toNat + src1.length / 64 = 2 ^ 32 := by
-          rw [hs3.overflow, h2o]; omega
-        have htc3 : tc s3 = s1.counter.toNat + src1.length / 64 := by
-          simp only [tc]
-          by_cases hw : s1.counter.toNat + src1.length / 64 = 2 ^ 32
-          · simp [h3o.mpr hw, hw]
-          · have : s3.overflow = false := by
-              cases h : s3.overflow
-              · rfl
-              · exact absurd (h3o.mp h) hw
-            simp [this, h3c]; omega
-        have h3l : s3.len = 0 := by rw [hs3.len, h2l, hlen]
-        have hpos3 : pos s3 = 64 * s1.counter.toNat + src1.length := by
-          simp only [pos, htc3, h3l]; omega
-        refine ⟨s3, ?_, ?_, hpos3, ?_, ?_⟩
-        · congr 2
-          rw [hq, List.take_of_length_le (Nat.le_refl _), h2k, h2n, h2c]
-        · refine ⟨by rw [hs3.buf, h2b]; exact hi.buflen, by omega, by omega, ?_, ?_, hs3.pre⟩
-          · intro ho
-            have hw := h3o.mp ho
-            apply UInt32.toNat_inj.mp
-            rw [h3c, hw]
-            simp
-          · rw [h3l, hs3.buf, h2b]
-            simp [ksRange, hi.buflen]
-        · rw [hs3.key, h2k]
-        · rw [hs3.nonce, h2n]
+        by_cases hA : s3.counter.toNat + m ≥ 2 ^ 32
+        · -- one block at a time (the multi-block refill would reach 2^32)
+          simp only [hA, if_true]
+          have hnbdef : ∃ nb, ((src1.drop (64 * q)).length + 63) / 64 = nb ∧
+              (src1.drop (64 * q)).length ≤ 64 * nb ∧ 64 * nb - (src1.drop (64 * q)).length < 64 ∧
+              s1.counter.toNat + q + nb = s1.counter.toNat + (src1.length + 63) / 64 := by
+            refine ⟨_, rfl, ?_, ?_, ?_⟩ <;> rw [htl] <;> omega
+          obtain ⟨nb, hnbe, hnb1, hnb2, hnb3⟩ := hnbdef
+          simp only [hnbe]
+          obtain ⟨s4, bx, hb, hs4, hbl, hbt, hbd⟩ := tailPart_spec s3 hs3.pre (src1.drop (64 * q)) nb hnb1
+            (by rw [h3c']; omega)
+          rw [hb]
+          obtain ⟨S, hSe, hSk, hSn, hSc, hSo, hSb, hSl, hSp⟩ : ∃ S : Cipher,
+              S = { s4 with buf := zeros (64 * m - 64 * nb) ++ bx, len := 64 * nb - (src1.drop (64 * q)).length } ∧
+              S.key = s4.key ∧ S.nonce = s4.nonce ∧ S.counter = s4.counter ∧ S.overflow = s4.overflow ∧
+              S.buf = zeros (64 * m - 64 * nb) ++ bx ∧ S.len = 64 * nb - (src1.length - 64 * q) ∧
+              (S.precompDone = true → PrecompOK S) :=
+            ⟨_, rfl, rfl, rfl, rfl, rfl, rfl, by simp only [htl], hs4.pre⟩
+          have hnbm : nb ≤ m := by rw [htl] at hnb2; omega
+          have h4c : S.counter.toNat = (s1.counter.toNat + q + nb) % 2 ^ 32 := by
+            rw [hSc, hs4.counter, UInt32.toNat_add, h3c', UInt32.toNat_ofNat']; simp
+          have hzl : (zeros (64 * m - 64 * nb)).length = 64 * m - 64 * nb := by simp [zeros]
+          have := tail_state_inv m hm S (s1.counter.toNat + q) nb (src1.length - 64 * q) h4c
+            (by rw [hSo, hs4.overflow, h3o]; omega) (by omega) (by rw [htl] at hnb1; exact hnb1) hSl
+            (by omega) (by rw [hSb]; simp [zeros, hbl]; omega)
+            (by
+              rw [hSb, hSk, hSn, hs4.key, hs4.nonce]
+              rw [show 64 * m - (64 * nb - (src1.length - 64 * q)) =
+                (zeros (64 * m - 64 * nb)).length + (src1.drop (64 * q)).length by rw [hzl, htl]; rw [htl] at hnb1; omega]
+              rw [drop_append_add, hbd, htl, h3c']) hSp (by intro; rw [htl] at hnb2; omega)
+          refine ⟨S, ?_, this.1, by rw [this.2]; omega, by rw [hSk, hs4.key, hs3.key, h2k],
+            by rw [hSn, hs4.nonce, hs3.nonce, h2n]⟩
+          rw [hSe]
+          simp only []
+          congr 2
+          exact hout bx hbt
+        · -- a whole buffer of m blocks
+          have hnt : (src1.drop (64 * q)).length > 0 := by rw [htl]; omega
+          simp only [hA, hnt, if_false, if_true]
+          obtain ⟨s4, bx, hb, hs4, hbl, hbt, hbd⟩ := tailPart_spec s3 hs3.pre (src1.drop (64 * q)) m
+            (by rw [htl]; omega) (by omega)
+          simp only [blocks]
+          rw [hb]
+          obtain ⟨S, hSe, hSk, hSn, hSc, hSo, hSb, hSl, hSp⟩ : ∃ S : Cipher,
+              S = { s4 with buf := bx, len := 64 * m - (src1.drop (64 * q)).length } ∧
+              S.key = s4.key ∧ S.nonce = s4.nonce ∧ S.counter = s4.counter ∧ S.overflow = s4.overflow ∧
+              S.buf = bx ∧ S.len = 64 * m - (src1.length - 64 * q) ∧ (S.precompDone = true → PrecompOK S) :=
+            ⟨_, rfl, rfl, rfl, rfl, rfl, rfl, by simp only [htl], hs4.pre⟩
+          have h4c : S.counter.toNat = (s1.counter.toNat + q + m) % 2 ^ 32 := by
+            rw [hSc, hs4.counter, UInt32.toNat_add, h3c', UInt32.toNat_ofNat']; simp
+          have := tail_state_inv m hm S (s1.counter.toNat + q) m (src1.length - 64 * q) h4c
+            (by rw [hSo, hs4.overflow, h3o]; omega) (by omega) (by omega) hSl (by omega)
+            (by rw [hSb]; exact hbl)
+            (by
+              rw [hSb, hSk, hSn, hs4.key, hs4.nonce]
+              rw [show 64 * m - (64 * m - (src1.length - 64 * q)) = (src1.drop (64 * q)).length by rw [htl]; omega]
+              rw [hbd, htl, h3c']) hSp (by intro; omega)
+          refine ⟨S, ?_, this.1, by rw [this.2]; omega, by rw [hSk, hs4.key, hs3.key, h2k],
+            by rw [hSn, hs4.nonce, hs3.nonce, h2n]⟩
+          rw [hSe]
+          simp only []
+          congr 2
+          exact hout bx hbt
 
 end XC.C03
